@@ -34,7 +34,7 @@ PLAN = {
     "thorough": {"shards": 16, "shard_timeout": 3600, "case_timeout": 120, "inproc": 100000, "strace": 200, "failpoints": 5000, "sigkill": 500, "max_case_timeouts": 8},
 }
 THRESHOLDS = {
-    "quick": {"disk_reads_after_register": 3000, "rows_compared": 3000, "multi_objective_rows": 800, "extra_field_cells": 1500, "simplegp_runs": 10, "strace_runs": 6, "strace_writes": 100, "crash_files_checked": 40, "set:kill_points": 15, "only_best_runs": 60, "set:special_cells_seen": 12},
+    "quick": {"disk_reads_after_register": 3000, "rows_compared": 3000, "multi_objective_rows": 800, "extra_field_cells": 1500, "simplegp_runs": 10, "strace_runs": 6, "strace_writes": 100, "crash_files_checked": 40, "set:kill_points": 15, "only_best_runs": 60, "set:special_cells_seen": 12, "simplegp_ambiguous_runs": 10, "rows_of_lookalike_programs": 20},
     "thorough": {"disk_reads_after_register": 80000, "crash_files_checked": 650, "set:kill_points": 60, "strace_runs": 35},
 }
 
@@ -209,7 +209,70 @@ def run_inproc(case, rec):
     os.unlink(path)
 
 
+def run_simplegp_ambiguous(case, rec):
+    """SimpleGP on a grammar whose __str__ is not injective: rows are matched to the registered individuals through a
+    spy recorder (extension API), never through the printed program."""
+    from geml.simplegp import SimpleGP
+
+    g, mod = evo.tiny_ambiguous()
+    nobj = case["nobj"]
+    path = os.path.join(core.SCRATCH, f"simplegp-amb-{case['seed']}.csv")
+
+    def fs(p):
+        return float(p.value() % 5)
+
+    def fm(p):
+        return [float((p.value() + i) % 5) + 100 * i for i in range(nobj)]
+
+    cbs = {"Value": lambda p: p.value(), "LeftDepth": lambda p: p.left_depth()}
+    wit = {"objectives": nobj, "via": "SimpleGP", "grammar": "non-injective __str__", "only_best": case["only_best"]}
+    R = evo.make_recorder_class()
+    spy = R()
+    a, b = mod.Sub(mod.Sub(mod.Lit(7), mod.Lit(2)), mod.Lit(1)), mod.Sub(mod.Lit(7), mod.Sub(mod.Lit(2), mod.Lit(1)))
+    try:
+        gp = SimpleGP(fs if nobj == 1 else fm, g, minimize=False if nobj == 1 else [i % 2 == 0 for i in range(nobj)], max_depth=4, max_evaluations=40, max_time=30, csv_output=path, csv_extra_fields=cbs, only_record_best_individuals=case["only_best"], seed=case["seed"], population_size=6, elitism=1, novelty=1, initial_population=[a, b] if case["seed"] % 2 else [b, a])
+        gp.gp.tracker.recorders.append(spy)
+        gp.search()
+        gp.gp.tracker.recorders[0].csv_file.close()
+    except core.CaseTimeout:
+        raise
+    except BaseException as e:  # noqa
+        rec.violation(f"csv:simplegp-raises:{type(e).__name__}@{core.exc_site(e)}", dict(wit, error=core.short(e)))
+        return
+    rec.count("simplegp_runs")
+    rec.count("simplegp_ambiguous_runs")
+    rec.count("evaluations")
+    data, complete, rows = parse_disk(path)
+    expected = [e[0] for e in spy.events if (not case["only_best"]) or e[1]]
+    if not rows or not complete or len(rows) - 1 != len(expected):
+        rec.violation("csv:simplegp-row-count", dict(wit, rows=len(rows) - 1, registrations_recorded=len(expected)))
+        return
+    names = rows[0]
+    texts = set()
+    for j, (row, ind) in enumerate(zip(rows[1:], expected)):
+        rec.count("rows_compared")
+        d = dict(zip(names, row))
+        p = ind.get_phenotype()
+        if str(p) in texts:
+            rec.count("rows_of_lookalike_programs")
+        texts.add(str(p))
+        comps = [fs(p)] if nobj == 1 else fm(p)
+        for k, c in enumerate(comps):
+            if not cell_equal("f", d.get(f"Fitness{k}"), c):
+                rec.violation(f"csv:fitness-column-holds-wrong-value:{'multi' if nobj > 1 else 'single'}", dict(wit, row=j, column=f"Fitness{k}", on_disk=d.get(f"Fitness{k}"), expected=c))
+                return
+        for name, fn in cbs.items():
+            rec.count("extra_field_cells")
+            if str(d.get(name)) != str(fn(p)):
+                rec.violation("csv:extra-field-holds-wrong-value:simplegp", dict(wit, row=j, column=name, on_disk=d.get(name), expected=str(fn(p)), program_prints_as=str(p)))
+                return
+    rec.distinct_add([wit, len(rows), sorted(texts)[:4]])
+    os.unlink(path)
+
+
 def run_simplegp(case, rec):
+    if case["seed"] % 3 != 0:
+        return run_simplegp_ambiguous(case, rec)
     from geml.simplegp import SimpleGP
 
     g, _ = evo.tiny()
